@@ -230,6 +230,30 @@ def judge_idlist(case):
                         tree3 = NamespaceTree(tree3, NamespaceIds(list(part)))
                 if tree3.fqn.items != ids or tree3.fqn_member_name(NamespaceIds(['m', 'n'])).items != ids + ['m', 'n']:
                     bad('tree-fqn-3-levels', f'cuts={cut},{cut2} -> {tree3.fqn.items}')
+        # deeper trees: every way of cutting the identifier list into consecutive levels (only run for the long
+        # lists of the 'deeptrees' family; for <= 3 identifiers the code above has done it already)
+        if len(ids) > 3:
+            for mask in range(1 << (len(ids) - 1)):
+                levels, cur = [], [ids[0]]
+                for i in range(1, len(ids)):
+                    if mask >> (i - 1) & 1:
+                        levels.append(cur)
+                        cur = []
+                    cur.append(ids[i])
+                levels.append(cur)
+                tree_n = NamespaceTree()
+                chain = []
+                for part in levels:
+                    tree_n = NamespaceTree(tree_n, NamespaceIds(list(part)))
+                    chain.append(tree_n)
+                want = []
+                for part, node in zip(levels, chain):
+                    want = want + part
+                    if node.fqn.items != want:
+                        bad(f'tree-fqn-{len(levels)}-levels', f'levels={levels}: node {part} has fqn {node.fqn.items}')
+                        break
+                if tree_n.fqn_member_name(NamespaceIds(['m'])).items != ids + ['m'] or str(tree_n) != '.'.join(ids):
+                    bad(f'tree-member-{len(levels)}-levels', f'levels={levels}')
     except Exception as exc:  # pylint: disable=broad-except
         bad(f'exception:{type(exc).__name__}', repr(exc))
     return out
@@ -320,6 +344,18 @@ def work(job):
                     part.violation(key, what, case)
                 if n == 2:
                     part.sample(case)
+        # 4..7 identifiers (with repetitions and prefix-related names) cut into every possible sequence of levels
+        for ids in (['a', 'b', 'ab', 'a'], ['a', 'a', 'a', 'a', 'a'], ['a', 'b', 'ab', 'b', 'a', 'ab'],
+                    ['ab', 'a', 'b', 'a', 'ab', 'b', 'a']):
+            case = {'kind': 'idlist', 'ids': ids}
+            res = judge(case)
+            part.evaluations += 1 << (len(ids) - 1)
+            part.transitions += 1 << (len(ids) - 1)
+            part.states += 1
+            part.nontrivial += 1
+            part.outcome(f'idlist:{len(ids)}')
+            for key, what in res:
+                part.violation(key, what, case)
     return part
 
 
